@@ -33,7 +33,7 @@ Names ==
     n_x_py      |-> F(FALSE, FALSE, FALSE, FALSE, TRUE,  TRUE,  FALSE, FALSE, FALSE, "", FALSE, 11, FALSE, FALSE, FALSE),
     n_dot_pyc   |-> F(FALSE, FALSE, FALSE, FALSE, FALSE, FALSE, FALSE, FALSE, TRUE,  "n_dot_py", FALSE, 4, TRUE, TRUE, FALSE) ]
 
-Ent(p, n, kd) == [parent |-> p, name |-> n, kind |-> kd]
+Ent(p, n, kd) == [parent |-> p, name |-> n, kind |-> kd, link |-> FALSE]
 Universe ==
   [ tests_py      |-> Ent("", "n_tests_py", "file"),
     other_py      |-> Ent("", "n_other_py", "file"),
